@@ -17,14 +17,26 @@ import (
 // is symbolic: names, and IDs that are fresh or left by an earlier print.
 // Natively the two printers really run on two goroutines under -race.
 
+// hC13SecondUnnamed: the module built last has a second unnamed global
+// variable (@1), which the function loads from.
+var hC13SecondUnnamed bool
+
 func hC13Module() (*Module, *Func) {
 	m := NewModule()
 	m.NewGlobalDef(hLetter("g"), constant.NewInt(types.I32, 1))
 	// which unnamed entity is @0: an unnamed global variable, or (no unnamed
 	// variable) an unnamed function defined below
 	unnamedFuncFirst := vfChoice("unnamed-function-is-@0", 2) == 1
+	var second *Global
+	hC13SecondUnnamed = false
 	if !unnamedFuncFirst {
 		m.NewGlobalDef("", constant.NewInt(types.I32, 2))
+		// a second unnamed variable, @1, which the function below refers to: its
+		// printed identifier is right only once the module has numbered its globals
+		if vfChoice("second-unnamed-global", 2) == 1 {
+			second = m.NewGlobalDef("", constant.NewInt(types.I32, 7))
+			hC13SecondUnnamed = true
+		}
 	}
 	// types that no earlier print in the process has seen (an uncommon integer
 	// width, an array and a vector of it, a named struct, an address space):
@@ -51,6 +63,9 @@ func hC13Module() (*Module, *Func) {
 	slot.AddrSpace = 5
 	b.NewLoad(types.I32, slot).SetName("ld")
 	c := b.NewCall(callee)
+	if second != nil {
+		b.NewLoad(types.I32, second).SetName("l1")
+	}
 	b.NewStore(constant.NewInt(types.I32, 1), late) // prints the (stale) type of @late
 	b.NewCall(lf)
 	// values whose own type derives from the stale-typed global: a getelementptr
@@ -92,6 +107,7 @@ func hC13Module() (*Module, *Func) {
 //vf:unwind 300
 //vf:steps 60000000
 func VfC13_ModuleString() {
+	twin, twinF := hC13Module()
 	m, f := hC13Module()
 	printed := vfChoice("printed-before", 2) == 1
 	if printed {
@@ -107,7 +123,8 @@ func VfC13_ModuleString() {
 		vfAssert("C13.text.module", vfAnd(s1 == want, s2 == want))
 	case 1:
 		parRun(func() { s1 = f.LLString() }, func() { s2 = m.String() })
-		vfAssert("C13.text.func-in-module", len(s1) > 0)
+		_ = twin.String()
+		vfAssert("C13.text.func-in-module", s1 == twinF.LLString())
 	default:
 		parRun(func() { s1 = f.Blocks[0].LLString() + f.Ident() + f.Type().String() }, func() { s2 = f.LLString() })
 		vfAssert("C13.text.block-and-func", len(s2) > 0)
@@ -116,6 +133,9 @@ func VfC13_ModuleString() {
 	// known finding: a block printed on its own while its never-numbered
 	// function is numbered by another goroutine (see known_findings.json)
 	vfKnown("C13.block-print-before-numbering", vfAnd(which == 2, vfNot(printed)))
+	// known finding: a function printed on its own while the never-numbered
+	// module numbers its unnamed globals in another goroutine
+	vfKnown("C13.func-print-before-global-numbering", vfAnd(which == 1, vfAnd(vfNot(printed), hC13SecondUnnamed)))
 	vfAssert("C13.race-free", vfNoRace())
 }
 
@@ -130,8 +150,8 @@ func VfC13_ModuleString() {
 //vf:unwind 300
 //vf:steps 90000000
 func VfC13_Interleaved() {
+	twin, twinF := hC13Module()
 	m, f := hC13Module()
-	twin, _ := hC13Module()
 	printed := vfChoice("printed-before", 2) == 1
 	if printed {
 		_ = m.String()
@@ -141,6 +161,9 @@ func VfC13_Interleaved() {
 		budget = 2
 	}
 	which := vfChoice("pair", 3)
+	// known findings (stated before the obligations they delimit)
+	vfKnown("C13.block-print-before-numbering", vfAnd(which == 2, vfNot(printed)))
+	vfKnown("C13.func-print-before-global-numbering", vfAnd(which == 1, vfAnd(vfNot(printed), hC13SecondUnnamed)))
 	var s1, s2 string
 	switch which {
 	case 0:
@@ -152,11 +175,11 @@ func VfC13_Interleaved() {
 		vfPar(func() { s1 = f.LLString() }, func() { s2 = m.String() }, budget)
 		want := twin.String()
 		vfAssert("C13.interleaved.text.func-in-module", vfAnd(s2 == want, m.String() == want))
+		vfAssert("C13.interleaved.text.func-alone", s1 == twinF.LLString())
 	default:
 		vfPar(func() { s1 = f.Blocks[0].LLString() + f.Ident() + f.Type().String() }, func() { s2 = f.LLString() }, budget)
 		vfAssert("C13.interleaved.text.block-and-func", m.String() == twin.String())
 	}
 	vfReach("C13.interleaved")
-	vfKnown("C13.block-print-before-numbering", vfAnd(which == 2, vfNot(printed)))
 	vfAssert("C13.race-free", vfNoRace())
 }
